@@ -55,7 +55,7 @@ def check_missing(ctx):
     W = ctx.where(f.module, f.node)
     key = f.params[1] if len(f.params) > 1 else 'key'
 
-    def classify(p):
+    def classify(p, ev=None):
         if p.outcome.kind == 'raise':
             r = t.raised_class(p)
             if r == 'builtin:KeyError':
@@ -64,10 +64,14 @@ def check_missing(ctx):
         if p.outcome.kind == 'end' or p.outcome.expr is None:
             return 'none'
         e = t.expand(p.outcome.expr)
+        while isinstance(e, ast.IfExp) and ev is not None:
+            v = ev.ev(e.test)
+            if v is None:
+                break
+            e = t.expand(e.body if v else e.orelse)
         if U(e) == subj:
             return 'object'
-        if isinstance(e, ast.Subscript) and U(e.value) == 'self' and \
-                U(e.slice) == subj:
+        if _is_lookup(e):
             return 'lookup'
         if _get_with_sentinel(e, subj) is not None:
             # self.get(default, <sentinel>) on a path that excluded the
@@ -75,14 +79,66 @@ def check_missing(ctx):
             return 'lookup'
         return 'other:' + U(e)
 
-    for k, (av, in_store, want) in dom.items():
-        def oracle(expr, in_store=in_store):
+    def _is_lookup(e):
+        return isinstance(e, ast.Subscript) and U(e.value) == 'self' and \
+            U(e.slice) == subj
+
+    def _lookup_only_try(cond):
+        """The exception condition belongs to a try whose body can raise only
+        by the lookup of the default name in the store."""
+        if not isinstance(cond.expr, ast.Constant) or 'try@' not in str(
+                cond.expr.value):
+            return False
+        try:
+            ln = int(str(cond.expr.value).split('try@')[1].split()[0]
+                     .rstrip(':,)'))
+        except ValueError:
+            return False
+        for n in walk_no_nested(f.node):
+            if isinstance(n, ast.Try) and n.lineno == ln:
+                if len(n.body) != 1 or not isinstance(
+                        n.body[0], (ast.Assign, ast.Return, ast.Expr)):
+                    return False
+                v = n.body[0].value
+                if v is None:
+                    return False
+                if isinstance(v, ast.Subscript) and isinstance(
+                        v.slice, ast.Name) and v.slice.id in aliases:
+                    return U(v.value) == 'self'
+                return _is_lookup(t.expand(v))
+        return False
+
+    # local names bound (once) to the default rule
+    aliases = set()
+    stores = {}
+    for n in walk_no_nested(f.node):
+        if isinstance(n, ast.Name) and isinstance(n.ctx, ast.Store):
+            stores[n.id] = stores.get(n.id, 0) + 1
+    for n in walk_no_nested(f.node):
+        if isinstance(n, ast.Assign) and len(n.targets) == 1 and isinstance(
+                n.targets[0], ast.Name) and U(n.value) == subj and \
+                stores.get(n.targets[0].id) == 1:
+            aliases.add(n.targets[0].id)
+
+    def key_cmp(x):
+        """+1 for `key == default` / `key is default`, else 0."""
+        if isinstance(x, ast.Compare) and len(x.ops) == 1 and isinstance(
+                x.ops[0], (ast.Eq, ast.Is)):
+            a, b = U(t.expand(x.left)), U(t.expand(x.comparators[0]))
+            if {a, b} == {key, subj}:
+                return True
+        return False
+
+    def outcomes(av, in_store, key_is_default):
+        def oracle(expr):
             # membership of the default rule name in the store
             if isinstance(expr, ast.Compare) and len(expr.ops) == 1 and \
                     isinstance(expr.ops[0], ast.In) and \
                     U(expr.left) == subj and U(expr.comparators[0]) in (
                         'self', 'self.keys()'):
                 return in_store
+            if key_is_default is not None and key_cmp(expr):
+                return key_is_default
             # self.get(default, SENTINEL) is SENTINEL  <=>  not in the store
             x = t.expand(expr)
             if isinstance(x, ast.Compare) and len(x.ops) == 1 and \
@@ -94,14 +150,38 @@ def check_missing(ctx):
                         return (not in_store) == isinstance(x.ops[0],
                                                             ast.Is)
             return None
-        feas = t.feasible({subj: av}, oracle)
+        from ..absval import Evaluator
+        ev = Evaluator(prog, f.module, {subj: av}, oracle=oracle)
         outs = {}
-        for p, unk in feas:
-            outs.setdefault(classify(p), []).append(p)
+        for p, unk in t.feasible({subj: av}, oracle):
+            outs.setdefault(classify(p, ev), []).append(p)
+        return outs
+
+    for k, (av, in_store, want) in dom.items():
+        # __missing__ runs for a key that is not in the store: a default
+        # name that is in the store is not that key
+        outs = outcomes(av, in_store, False if in_store else None)
+        if in_store:
+            # the stored default is found: the lookup does not raise
+            for o in list(outs):
+                outs[o] = [p for p in outs[o] if not any(
+                    c.kind == 'exc' and _lookup_only_try(c)
+                    for c in p.conds)]
+                if not outs[o]:
+                    del outs[o]
+        elif 'lookup' in outs and 'name' in k:
+            # `self[default]` for a default name that is not in the store
+            # re-enters __missing__ with that name as the key: when that
+            # inner call can only raise KeyError, so does the lookup (the
+            # path on which it is caught is enumerated separately)
+            inner = outcomes(av, in_store, True)
+            if set(inner) == {'raise'}:
+                del outs['lookup']
+                outs.setdefault('raise', [])
         ok = set(outs) == {want}
         ctx.count(len(t.paths))
-        wrong = [(o, ps[0].cond_text()) for o, ps in outs.items()
-                 if o != want]
+        wrong = [(o, ps[0].cond_text() if ps else '') for o, ps in
+                 outs.items() if o != want]
         human = {'raise': 'raises KeyError (no usable default)',
                  'lookup': 'returns the rule stored under the default name',
                  'object': 'returns the default check object'}[want]
